@@ -143,6 +143,21 @@ def main():
         rep["transitions"] += 1
         rep["by_op"][op] = rep["by_op"].get(op, 0) + 1
         Food.conversions.set_nutrition_requirements(2100, 47, 51, True, True, 1e7)
+        if op == "Construct":
+            cx = c["x"]
+            arrs = [np.array([float(fr(q)) for q in row]) for row in cx["n"]]
+            labs = [cx["lab"][i] + (" each month" if cx["given"][i] else "") for i in range(3)]
+            try:
+                got = project(Food(arrs[0], arrs[1], arrs[2], labs[0], labs[1], labs[2]))
+            except BaseException as ex:  # noqa
+                bad("Construct:exception", dict(case=c, exc=repr(ex)[:120]))
+                continue
+            want = expected(c["r"])
+            if got["units"] != got["labels"]:
+                bad("LabelListAgrees:Construct", dict(case=c, got=got))
+            if got["labels"] != want["labels"] or got["sh"] != want["sh"] or not close(got["n"], want["n"]):
+                bad("Labels:Construct", dict(case=c, got=got, want=want))
+            continue
         x, y = mk(Food, c["x"]), mk(Food, c["y"])
         sx, sy = snap(x), snap(y)
         try:
